@@ -3,6 +3,7 @@
 -/
 import JP.RelPointer
 import JP.Lemmas.Pointer
+import JP.Lemmas.RelPointerAux2
 namespace JP.Lemmas
 open JP JP.Pointer JP.RelPointer
 
@@ -30,14 +31,33 @@ def applyText (dec : EscDec) (ue : Bool) (relText baseText : Str) : Res (List Pa
 
 theorem rel_print_parse (dec : EscDec) (ue : Bool) (r : RelSpec) (hok : RelOk r) :
     (RelPointer.parse dec ue (specText r)).map toStr = .ok (specText r) := by
-  sorry
+  rw [parse_specText dec ue r hok.tokRange hok.noBackslash hok.noTrailingBlank hok.originShort
+    hok.offsetShort]
+  show Except.ok (toStr _) = _
+  rw [toStr_specText]
 
 theorem rel_apply_spec (dec : EscDec) (ue : Bool) (r : RelSpec) (base : List Str)
     (hok : RelOk r) (hbase : BaseOk base) :
     match specApply r base with
     | some ts => (applyText dec ue (specText r) (spellTokens base)).map tokens = .ok ts
     | none => applyText dec ue (specText r) (spellTokens base) = .error .relIndex := by
-  sorry
+  have happ : applyText dec ue (specText r) (spellTokens base) =
+      applyTo dec ue ⟨r.origin, r.offset, sufOf r⟩ (base.map tokPart) := by
+    unfold applyText
+    rw [parse_specText dec ue r hok.tokRange hok.noBackslash hok.noTrailingBlank hok.originShort
+      hok.offsetShort,
+      parse_spellTokens dec ue base hbase.tokRange
+        (fun _ => spellTokens_no_backslash hbase.noBackslash)]
+    rfl
+  rw [happ, applyTo_tokPart dec ue r base hbase.noNegative]
+  cases hs : specApply r base with
+  | none => rfl
+  | some ts =>
+    simp only
+    rw [fromParts_tokPart dec ue ts
+      (specApply_no_backslash hs hbase.noBackslash hok.noBackslash)]
+    show Except.ok (tokens _) = _
+    rw [tokens_map_key]
 
 theorem rel_refusals (r : RelSpec) (base : List Str) :
     specApply r base = none ↔
@@ -45,6 +65,45 @@ theorem rel_refusals (r : RelSpec) (base : List Str) :
        (r.offset ≠ 0 ∧ ∃ last, (base.take (base.length - r.origin)).getLast? = some last ∧
           isCanonNat last = true ∧ (digitsVal last : Int) + r.offset < 0) ∨
        (r.hash = true ∧ r.origin ≤ base.length ∧ base.take (base.length - r.origin) = [])) := by
-  sorry
+  unfold specApply
+  by_cases h1 : r.origin > base.length
+  · simp [h1]
+  · simp only [h1, if_false, false_or]
+    have h1' : r.origin ≤ base.length := by omega
+    generalize base.take (base.length - r.origin) = kept
+    by_cases h2 : r.offset = 0
+    · simp only [h2, if_true, ne_eq, not_true, false_and, false_or]
+      cases hh : r.hash with
+      | false => simp
+      | true =>
+        simp only [if_true, true_and, h1']
+        cases hk : kept.getLast? with
+        | none => simp [List.getLast?_eq_none_iff.mp hk]
+        | some last =>
+          simp
+          intro e; subst e; simp at hk
+    · simp only [h2, if_false, ne_eq, not_false_eq_true, true_and]
+      cases hk : kept.getLast? with
+      | none =>
+        have : kept = [] := List.getLast?_eq_none_iff.mp hk
+        subst this
+        cases hh : r.hash <;> simp [h1']
+      | some last =>
+        have hne : kept ≠ [] := by intro e; subst e; simp at hk
+        simp only [Option.some.injEq, exists_eq_left']
+        by_cases hc : isCanonNat last = true
+        · simp only [hc, if_true, true_and]
+          by_cases hn : (digitsVal last : Int) + r.offset < 0
+          · simp [hn]
+          · simp only [hn, if_false, false_or]
+            cases hh : r.hash with
+            | false => simp
+            | true =>
+              simp [hne]
+        · have hc' : isCanonNat last = false := by simpa using hc
+          simp only [hc', Bool.false_eq_true, if_false, false_and, false_or]
+          cases hh : r.hash with
+          | false => simp
+          | true => simp [hne, hk]
 
 end JP.Lemmas
